@@ -3,6 +3,8 @@ pub mod arena;
 pub mod gen;
 pub mod coll;
 pub mod cgen;
+pub mod strs;
+pub mod sgen;
 
 #[global_allocator]
 static GLOBAL: rec::Rec = rec::Rec;
